@@ -382,6 +382,35 @@ def factor_sites(ctx: Ctx):
             ok = len({norm_factor(t) for _, t, _ in facs}) == 1
         ctx.ob("C12.b", f"{fn}:factors", ok, fi.loc, f"replication factors used: {[(a, t) for a, t, _ in facs]}" + ("" if ok else " -- expansion and regrouping use different factors"),
                construct=f"{fn}:factor-agreement")
+    # nesting order: the batch is augmented first (rows (aug, batch)) and expanded for multi-start inside the policy (rows
+    # (start, aug, batch)); unbatchify(x, (f1, .., fk)) peels fk off the MAJOR end first, so the multi-start factor -- the value
+    # handed to the policy as num_starts -- has to be the LAST element of the regrouping tuple
+    from ..units import roots_of
+    for rel, fn in (("rl4co/models/zoo/pomo/model.py", "POMO.shared_step"), ("rl4co/models/zoo/symnco/model.py", "SymNCO.shared_step")):
+        fi = ctx.repo.get_function(rel, fn)
+        ctx.fn(fi)
+        it = vg.Interp(ctx.repo, fi.cls, inline_policy=lambda f, a: False)
+        fr = it.run_function(fi)
+        seen_, pol, regs = set(), [], []
+        for r_ in roots_of(it, fr):
+            for n in vg.walk(r_):
+                if n.id in seen_:
+                    continue
+                seen_.add(n.id)
+                if n.op == "meth" and n.args[0].op == "self" and n.args[1] == "policy":
+                    ns = [k.args[1] for k in n.args[2:] if isinstance(k, vg.S) and k.op == "kw" and k.args[0] == "num_starts"]
+                    pol += ns
+                if (nf._fn(n) or "").endswith(":unbatchify") and len(n.args) >= 3 and n.args[2].op == "tuple" and len(n.args[2].args) == 2:
+                    regs.append(n)
+        if len(pol) != 1 or len(regs) < 2:
+            raise AnalysisError(f"{fn}: policy(num_starts=..) call / two-factor regroupings not found ({len(pol)}, {len(regs)})")
+        wrong = [n for n in regs if n.args[2].args[-1] is not pol[0]]
+        ok = not wrong
+        ctx.ob("C12.b", f"{fn}:nesting-order", ok, fi.loc,
+               f"{len(regs)} two-factor regroupings: the multi-start factor (the policy's num_starts, outermost expansion) is the last tuple element in each" if ok else
+               f"{len(wrong)} of {len(regs)} regroupings put the multi-start factor first: rows are laid out (start, aug, batch) -- the policy expands the already augmented batch -- "
+               "but unbatchify(x, (n_start, n_aug)) reads them as (aug, start, batch); with both factors > 1 the [B, n_start, n_aug] cells hold other (start, aug) rollouts",
+               construct=f"{fn}:nesting:" + ("ok" if ok else "multistart-factor-first"))
     # best-of agreement: the axis the argmax was taken over is the axis the index is gathered on, and both operands were
     # regrouped with the same factor
     sites = [("rl4co/tasks/eval.py", "AugmentationEval._inner", 1), ("rl4co/tasks/eval.py", "GreedyMultiStartEval._inner", 1),
